@@ -55,6 +55,83 @@ var exprPositions = []string{"match (n) where %s return n", "match (n) return %s
 	"match (n) return size(%s)", "match (n {p: %s}) return n", "match (n) delete %s", "return %s", "match (n) where n.y = 1 and %s or n.z = 2 return n", "match (n)-[r:E {w: %s}]->() return r",
 	"match (n) with n order by %s limit 1 return n", "merge (n:A {k: %s}) on create set n.c = %s"}
 
+var caseVariantSources = []string{
+	"match (n) where n.a = true and n.b = false or n.c is null return n",
+	"match (n) where not n.a = true xor n.b is not null return n",
+	"match (n)-[r:E*1..2]->(m) where n.name starts with 'a' and m.name ends with 'b' and n.x in [1, 2] and m.y contains 'c' return distinct n, count(m) as c order by c desc skip 1 limit 2",
+	"match (n) optional match (n)-[:E]->(m) with n, collect(m) as ms unwind ms as x return n, x",
+	"match (n) where any(x in n.list where x = true) and none(y in n.other where y is null) and all(z in n.l where z = false) and single(w in n.l where w = null) return n",
+	"match p = shortestPath((a)-[:E*1..]->(b)) where a.ok = true return p",
+	"match (n) return case when n.a = true then 'x' else null end as v",
+	"create (n:K {a: true, b: null}) set n.c = false remove n.d return n",
+	"merge (n:K {a: 1}) on create set n.b = true on match set n.c = false return n",
+	"match (n) detach delete n",
+	"match (n) return toLower(n.name), toUpper(n.name), size(n.list), coalesce(n.a, true), exists(n.b)",
+}
+
+// caseVariants rewrites the letters of a text outside quotes and backticks: all upper case, every word capitalised, and
+// alternating case.
+func caseVariants(q string) []string {
+	variant := func(f func(i int, wordStart bool, r rune) rune) string {
+		var b strings.Builder
+		var quote rune
+		i, wordStart := 0, true
+		for _, r := range q {
+			switch {
+			case quote != 0:
+				if r == quote {
+					quote = 0
+				}
+				b.WriteRune(r)
+			case r == '\'' || r == '"' || r == '`':
+				quote = r
+				b.WriteRune(r)
+			case (r >= 'a' && r <= 'z') || (r >= 'A' && r <= 'Z'):
+				b.WriteRune(f(i, wordStart, r))
+				i++
+				wordStart = false
+			default:
+				b.WriteRune(r)
+				wordStart = true
+			}
+		}
+		return b.String()
+	}
+	up := func(r rune) rune {
+		if r >= 'a' && r <= 'z' {
+			return r - 32
+		}
+		return r
+	}
+	low := func(r rune) rune {
+		if r >= 'A' && r <= 'Z' {
+			return r + 32
+		}
+		return r
+	}
+	return []string{
+		variant(func(_ int, _ bool, r rune) rune { return up(r) }),
+		variant(func(_ int, ws bool, r rune) rune {
+			if ws {
+				return up(r)
+			}
+			return low(r)
+		}),
+		variant(func(i int, _ bool, r rune) rune {
+			if i%2 == 1 {
+				return up(r)
+			}
+			return low(r)
+		}),
+		variant(func(i int, _ bool, r rune) rune {
+			if i%3 == 0 {
+				return up(r)
+			}
+			return low(r)
+		}),
+	}
+}
+
 // unrepresentable numeric literals and the places a number can stand
 var unrepNumbers = []string{"99999999999999999999", "9223372036854775808", "-9223372036854775809", "0x8000000000000000", "0xffffffffffffffffff", "1e999", "-1e999", "1e400"}
 var numberPositions = []string{"match (n) where n.x = %s return n", "match (n) return %s", "match (n) return n skip %s", "match (n) return n limit %s", "match ()-[*%s]->() return 1",
@@ -109,6 +186,13 @@ func fuzzInputs(rng *rand.Rand, perText int, deep bool) []fuzzInput {
 					add(r, "recovery")
 				}
 			}
+		}
+	}
+	// the grammar's keywords, function names and boolean / null literals are case-insensitive: the same texts in upper
+	// case, with capitalised words and in mixed case (quoted and backticked stretches untouched)
+	for _, q := range caseVariantSources {
+		for _, v := range caseVariants(q) {
+			add(v, "case-variant")
 		}
 	}
 	// blank and near-blank inputs
@@ -239,7 +323,22 @@ func Fuzz(args []string) {
 			if len(shown) > 160 {
 				shown = shown[:160] + "..."
 			}
-			w.Emit(map[string]any{"e": "parse", "hid": hid*2 + ci, "class": in.class, "context": []string{"unfiltered", "default"}[ci], "input": strings.ToValidUTF8(shown, "�"),
+			// a model handed out without an error is a whole model: the emitter can write it out (a typed-nil node or a
+			// half-built clause makes it fail or panic)
+			emitOK := true
+			if out.ok && out.model != nil && in.class != "nesting" && len(in.text) < 20000 {
+				func() {
+					defer func() {
+						if r := recover(); r != nil {
+							emitOK = false
+						}
+					}()
+					if _, err := emitText(out.model); err != nil {
+						emitOK = false
+					}
+				}()
+			}
+			w.Emit(map[string]any{"e": "parse", "emit_ok": emitOK, "hid": hid*2 + ci, "class": in.class, "context": []string{"unfiltered", "default"}[ci], "input": strings.ToValidUTF8(shown, "�"),
 				"len": len(in.text), "blank": strings.TrimSpace(in.text) == "", "ok": out.ok, "modelnil": out.model == nil, "panic": out.panicky, "err": out.err,
 				"ms": ms, "budget_ms": 10000, "unrepresentable": in.unrep})
 		}
